@@ -47,8 +47,8 @@ fn families() -> Vec<(&'static str, fn(&mut Rng, usize) -> Case)> {
 
 fn main() {
     let args: Vec<String> = std::env::args().collect();
-    if args.len() == 3 && args[1] == "--tracing-child" {
-        fam_trace::child(args[2].parse().expect("seed"));
+    if (args.len() == 3 || args.len() == 4) && args[1] == "--tracing-child" {
+        fam_trace::child(args[2].parse().expect("seed"), args.get(3).map_or("rand", String::as_str));
         return;
     }
     if args.len() == 3 && args[1] == "--report-dump" {
